@@ -90,6 +90,22 @@ func startWorld(c *explore.Ctx, futureGenesis bool, daBlock time.Duration) (*wor
 		return nil, &world.Fail{Clause: "startup", Msg: "full node: " + err.Error()}
 	}
 	w.queues = world.InstallDivert(w.sched, w.full, "sync")
+	// one DA submission may fail (the retry then waits for a back-off during which a stop must still be honoured)
+	daFault := false
+	w.envA.DA.SubmitPolicy = func(blobs [][]byte) world.SubmitAnswer {
+		if w.stopped || daFault {
+			return world.SubmitAcceptAll
+		}
+		switch c.Choose("da", 3) {
+		case 1:
+			daFault = true
+			return world.SubmitTimedOut
+		case 2:
+			daFault = true
+			return world.SubmitGenericError
+		}
+		return world.SubmitAcceptAll
+	}
 	// one transient datastore write error anywhere (both nodes)
 	for _, n := range []*world.Node{w.agg, w.full} {
 		who := map[bool]string{true: "sequencer-node", false: "full-node"}[n.Agg]
@@ -379,13 +395,14 @@ func TestCheck(t *testing.T) {
 		return
 	}
 	horizon := vf.Pick(r, 25, 40) // 100 ms steps
-	budgets := vf.Pick(r, map[string]int{"sched": 1, "stop": 1, "ioerr": 1}, map[string]int{"sched": 2, "stop": 1, "ioerr": 1})
+	budgets := vf.Pick(r, map[string]int{"sched": 1, "stop": 1, "ioerr": 1, "da": 1}, map[string]int{"sched": 2, "stop": 1, "ioerr": 1, "da": 1})
 	total := vf.Pick(r, 2, 3)
 	r.Assume = []string{
 		"virtual time; scheduling granularity = environment calls (datastore, DA, executor, sequencer, P2P stores) plus gated sends into the sync loop's input channels; plain memory accesses between two gates are atomic, so DATA RACES ARE NOT DECIDED by this enumeration",
 		"the worker fan-out/join of FullNode.Run (node/full.go) is not executed here (libp2p goroutines cannot run in a bubble); the ten loops are started by the harness exactly as Run starts them and joined by the scheduler",
 		"a stop is explored at every 100 ms boundary; 'promptly' = within one block interval of virtual time",
 		"locks of package block are visible to the scheduler (overlay copy with a lock shim): a thread waiting for a held lock is parked, a thread that can never get its lock is reported as a deadlock",
+		"one DA submission may be answered 'timed out' or with a generic error (the retry back-off is then pending when a stop arrives)",
 		"one transient datastore write error may be injected anywhere; afterwards only the stop behaviour is judged (a loop reporting a fatal error is then legitimate and triggers the stop, as FullNode.Run does)",
 		"after the stop request scheduling is canonical (Go's random choice between ctx.Done() and another ready case is not owned; both outcomes must satisfy the oracle)",
 	}
